@@ -33,6 +33,7 @@ LEVEL_TEXT = (
     'scope with/without the operator, * rule present, two scopes in either '
     'insertion order). Resolution is shown effect-free by the interprocedural '
     'effect analysis.'
+    ' Loading a rule list equals adding its entries in order (all lists of up to three entries).'
 )
 LEVEL_NOTE = (
     'Trusted: the sa path enumerator; the support check is taken from the '
@@ -41,7 +42,7 @@ LEVEL_NOTE = (
     'stores larger than the abstract ones, which the code treats uniformly '
     '(single loops over the containers).'
 )
-TECHNIQUE = 'transition/decision-table extraction by path enumeration + effect analysis (static)'
+TECHNIQUE = 'transition/decision-table extraction by path enumeration (incl. load == sequential adds) + effect analysis (static)'
 
 RM = 'recipe_manager:RecipeManager'
 CHECK_FQ = 'algorithm_manager_api:AlgorithmManagerApi.check_op_quantization_config'
